@@ -226,7 +226,9 @@ RBare(n, opt) ==
     [] n.o \in BinNodes ->
          LET o == NodeOp[n.o]  P == Prec(NodeOp[n.o]) IN
          RP(n.k[1], IF RightAssoc(o) THEN P + 1 ELSE P, opt) \o <<TOp(o)>>
-           \o RP(n.k[2], IF RightAssoc(o) THEN P ELSE P + 1, opt)
+           \* `=` absorbs a plain assignment on its right; an op-assignment there is parenthesised, because the
+           \* documentation does not say how `x = y += 1` groups
+           \o RP(n.k[2], IF RightAssoc(o) /\ n.k[2].o \notin (AssignNodes \ {"Assign"}) THEN P ELSE P + 1, opt)
 
 \* elements i.. of a sequence node, separated by its separator token
 RElems(n, i, opt, sep) ==
